@@ -631,6 +631,27 @@ func c11Proposals(c *core.Ctx) {
 				return
 			}
 			ap := bridge.ObserveProposal(prop)
+			// the proposal announces exactly the algorithms of the SA (integrity and PFS group only when set), whatever
+			// the constructor later makes of it
+			wantT := map[uint8]uint16{1: 12, 5: uint16(es)}
+			if i > 0 {
+				wantT[3] = []uint16{1, 2, 12}[i-1]
+			}
+			if d > 0 {
+				wantT[4] = []uint16{2, 14}[d-1]
+			}
+			gotT := map[uint8]uint16{}
+			for _, t := range ap.Transforms {
+				if _, dup := gotT[t.Type]; dup {
+					gotT[0] = 1
+				}
+				gotT[t.Type] = t.ID
+			}
+			if !reflect.DeepEqual(gotT, wantT) {
+				k.Violate("mapping", fmt.Sprintf("child-proposal-does-not-announce-the-SA's-algorithms/integ=%v/dh=%v", i > 0, d > 0), fmt.Sprintf("transform type->id announced %v, SA has %v", gotT, wantT), M{"proposal": ap})
+				return
+			}
+			k.Count("child_proposal_content_checked", 1)
 			m := &abs.Msg{Major: 2, Exch: 36, Payloads: []abs.Payload{{Kind: abs.PSA, SA: &abs.SA{Proposals: []abs.Proposal{ap}}}}}
 			wire, err, _ := libEncode(m)
 			if err != nil {
@@ -695,7 +716,7 @@ func c11Proposals(c *core.Ctx) {
 			k.Violate("panic", "child-proposal: "+pn.Sig(), "panic", panicData(pn, nil))
 		}
 	})
-	c.Require("returned_transform_edited_by_caller", "returned_proposal_edited_by_caller", "advertised_ok", "ike_proposals_ok", "child_proposals_ok", "unsupported_ike_proposal_refused", "unsupported_child_proposal_refused",
+	c.Require("child_proposal_content_checked", "returned_transform_edited_by_caller", "returned_proposal_edited_by_caller", "advertised_ok", "ike_proposals_ok", "child_proposals_ok", "unsupported_ike_proposal_refused", "unsupported_child_proposal_refused",
 		"supported_encr.DecodeTransform", "supported_encr.DecodeTransformChildSA", "supported_integ.DecodeTransform", "supported_integ.DecodeTransformChildSA",
 		"supported_prf.DecodeTransform", "supported_dh.DecodeTransform", "supported_esn.DecodeTransform")
 }
